@@ -913,6 +913,40 @@ pub fn adversarial_packets(r: &mut Rng, scale: usize) -> Vec<Vec<u8>> {
         }
         out.push(p);
     }
+    // mixed ladders inside opaque data: every rung is a 1-byte label followed by a chain of `k` pointers down to
+    // the previous rung, so a walk alternates labels and runs of pointers; many small records start at the top.
+    // (A correct walker charges every pointer of the whole walk to one budget and stops at the 17th.)
+    for k in [1usize, 2, 8, 15, 16] {
+        for rungs in [3usize, 20, 60, 126] {
+            let nrec = scale.min(1200);
+            let mut rd: Vec<u8> = vec![1, b'z', 0];                 // bottom: the name "z."
+            let mut p = header(19, 0x8180, 1, (1 + nrec) as u16, 0, 0);
+            question(&mut p, &[1, b'q', 0], 16);
+            let base = p.len() + 3 + 10;                            // offset of the TXT data in the packet
+            let mut below = base;                                   // where the rung below starts
+            for _ in 0..rungs {
+                // k - 1 pointer-only hops, each pointing at the previous one, the lowest at `below`
+                let mut target = below;
+                for _ in 1..k {
+                    let here = base + rd.len();
+                    rd.extend(ptr(target));
+                    target = here;
+                }
+                let here = base + rd.len();
+                rd.extend(&[1, b'y']);
+                rd.extend(ptr(target));
+                below = here;
+                if base + rd.len() > 16000 {
+                    break;
+                }
+            }
+            rr(&mut p, &[1, b'q', 0], 16, 1, &rd);
+            for _ in 0..nrec {
+                rr(&mut p, &ptr(below), 1, 1, &[1, 1, 1, 1]);
+            }
+            out.push(p);
+        }
+    }
     // loops
     for k in [1usize, 2, 5] {
         let mut p = header(14, 0x8000, 1, k as u16, 0, 0);
